@@ -131,6 +131,7 @@ long   sim_hook_stall_fired(void);      /* applied at the next frame start that 
 /* libc allocator seam (--wrap): armed only around the call under test */
 void   sim_wrap_arm(long fail1, long fail2);
 void   sim_wrap_disarm(void);
+void   sim_wrap_fill(int byte);   /* -1 off; else fill byte for malloc() blocks while armed */
 void   sim_wrap_reset(void);
 long   sim_wrap_calls(void);
 long   sim_wrap_failed(void);
